@@ -217,6 +217,15 @@ def scaled_cases(ctx):
                 verts[(par, fac)] = (a_pt[0] + par * (b_pt[0] - a_pt[0]) + fac * tol * n_x,
                                      a_pt[1] + par * (b_pt[1] - a_pt[1]) + fac * tol * n_y)
                 out.append(((a_pt, verts[(par, fac)], b_pt), tol))
+        # ... and a vertex *beyond* an end of the chord (a spike the path runs out to and back
+        # from): its distance is to the end vertex, and a formula that reaches it by expanding
+        # |p - b|^2 around the far-away first vertex has cancelled it away
+        for fac in (0.25, 0.5, 2.0, 4.0):
+            past = (b_pt[0] + fac * tol * d_x / norm, b_pt[1] + fac * tol * d_y / norm)
+            before = (a_pt[0] - fac * tol * d_x / norm, a_pt[1] - fac * tol * d_y / norm)
+            out.append(((a_pt, past, b_pt), tol))
+            out.append(((a_pt, before, b_pt), tol))
+            out.append(((a_pt, verts[(0.5, 0.25)], past, b_pt), tol))
         out.append(((a_pt, verts[(0.25, 0.5)], verts[(0.5, 4.0)], b_pt), tol))
         out.append(((a_pt, verts[(0.25, -0.25)], verts[(0.5, 0.5)], verts[(0.8, 0.25)], b_pt), tol))
     return out
@@ -365,7 +374,7 @@ def run(ctx):
         "rule": f"all vertex lists of length 0..{max_len} over the 3x3 lattice x tolerances "
                 f"{tols}; lists of length 7-9 on a line with one off-line point; all 4-point "
                 "(and 5-point) tuples for the predicate comparison; the 4-vertex lists in units of 2^200 and 2^-200; long oblique chords (1e3..1e7 "
-                "units, offsets to 2e6) with vertices 0.25..4 tolerances off the chord; oversampled "
+                "units, offsets to 2e6) with vertices 0.25..4 tolerances off the chord or beyond one of its ends; oversampled "
                 "curves (runs of 20..200 vertices); near-repeated vertices 2^20 / 2^30 units out "
                 "creeping off a chord; "
                 "non-trivial = simplification "
